@@ -174,6 +174,73 @@ pub fn child_zone(_args: &[String]) -> i32 {
     0
 }
 
+/// Child: render `{P}`, fork, render it again in the forked process (a daemonising or pre-forking program).
+pub fn child_fork(_args: &[String]) -> i32 {
+    use log4rs::encode::writer::simple::SimpleWriter;
+    let enc = PatternEncoder::new("{P}|{pid}");
+    let one = |enc: &PatternEncoder| -> String {
+        let mut buf = vec![];
+        let _ = enc.encode(&mut SimpleWriter(&mut buf), &log::Record::builder().build());
+        String::from_utf8_lossy(&buf).into_owned()
+    };
+    let before = one(&enc);
+    let mut fds = [0 as libc::c_int; 2];
+    let (child_pid, in_child) = unsafe {
+        if libc::pipe(fds.as_mut_ptr()) != 0 {
+            return 4;
+        }
+        let pid = libc::fork();
+        if pid < 0 {
+            return 5;
+        }
+        if pid == 0 {
+            let s = one(&enc);
+            libc::write(fds[1], s.as_ptr() as *const libc::c_void, s.len());
+            libc::_exit(0);
+        }
+        libc::close(fds[1]);
+        let mut buf = [0u8; 256];
+        let mut out = vec![];
+        loop {
+            let n = libc::read(fds[0], buf.as_mut_ptr() as *mut libc::c_void, buf.len());
+            if n <= 0 {
+                break;
+            }
+            out.extend_from_slice(&buf[..n as usize]);
+        }
+        let mut st = 0;
+        libc::waitpid(pid, &mut st, 0);
+        (pid, String::from_utf8_lossy(&out).into_owned())
+    };
+    println!("RESULT {}", json!({"parent_pid": std::process::id(), "before_fork": before, "child_pid": child_pid, "in_child_after_fork": in_child}));
+    0
+}
+
+fn fork_case(rep: &mut Report) {
+    if rep.only.is_some() {
+        return;
+    }
+    match crate::childproc::run_child(&["c09fork".to_owned()], &[], std::time::Duration::from_secs(60)) {
+        Err(e) => rep.inconclusive(&format!("cannot spawn fork child: {}", e)),
+        Ok(o) if o.timed_out => rep.inconclusive("fork child timed out"),
+        Ok(o) => {
+            let text = String::from_utf8_lossy(&o.stdout);
+            let Some(line) = text.lines().rev().find(|l| l.starts_with("RESULT ")) else {
+                rep.inconclusive("fork child produced no result");
+                return;
+            };
+            let v: serde_json::Value = serde_json::from_str(&line[7..]).unwrap_or_default();
+            rep.case_enumerated(true);
+            rep.count("fork_scenarios", 1);
+            let (pp, cp) = (v["parent_pid"].as_i64().unwrap_or(-1), v["child_pid"].as_i64().unwrap_or(-2));
+            if v["before_fork"] != json!(format!("{}|{}", pp, pp)) || v["in_child_after_fork"] != json!(format!("{}|{}", cp, cp)) {
+                rep.violation("C09:process-id-after-fork", json!({"pattern": "{P}|{pid}",
+                    "history": "encode in a process, fork(), encode again in the forked process", "observed": v}));
+            }
+        }
+    }
+}
+
 fn zone_change(rep: &mut Report) {
     if rep.only.is_some() {
         return;
@@ -256,6 +323,7 @@ pub fn run(rep: &mut Report) {
     if std::env::var("L4V_SUBRUN").is_err() {
         zone_change(rep);
     }
+    fork_case(rep);
     rep.require(rep.counter("style_events_observed") > 100, "fewer than 100 style events observed");
     rep.require(rep.counter("cases_on_named_threads") > 10, "no cases on named threads");
 }
